@@ -287,6 +287,11 @@ CASES = [
  "#define p(x) x x\n#define q p(q)\nq\n",
  "#define a(x) b(x) c\n#define b(x) a(x) d\na(1) b(2)\n",
  "#define ID(x) x\n#define F ID(G)(1)\n#define G(x) x+F\nF\n",
+ "#define s(x) #x\n#define f(a,b) a + b\ns(a\nb) s(1 +\n  2) f(1,\n2) f\n(3,\n4)\n",
+ "#define s(x) #x\n#define cat(a,b) a ## b\n#define xs(x) s(x)\nxs(cat(a,\nb) c) s(\"x  y\"   'c'  z)\n",
+ "#define EMPTY\n#define f(x) [x]\nf(EMPTY) f() f(EMPTY EMPTY) EMPTY f (1) EMPTY\n",
+ "#define d(x) x x\n#define one 1\n#define inc(x) x + one\nd(inc(one)) d(d(one))\n",
+ "#define d(x) x x\n#define t(x,y) y x y\nd(__COUNTER__) __COUNTER__ d(d(__COUNTER__)) t(__COUNTER__, __COUNTER__)\n",
 ]
 
 
